@@ -10,13 +10,18 @@ git -C /repo worktree add -q --detach $W HEAD || exit 2
 trap 'git -C /repo worktree remove --force $W' EXIT
 cd $W
 PLACE=$(python3 -c "import json,sys;print(json.load(open('$D/meta.json'))['demo']['place_at'].split()[0])")
-RUN=$(python3 -c "import json,sys;print(json.load(open('$D/meta.json'))['demo']['run'])")
+RUN=$(python3 -c "
+import json,re
+r=json.load(open('$D/meta.json'))['demo']['run']
+r=re.split(r'\s{2,}and\s{2,}', r)[0]      # first of several alternative commands
+r=re.sub(r'\s{2,}\(.*\$', '', r)           # trailing remark in parentheses
+print(r.strip())")
 DEMO=$(ls $D | grep '\.go$' | head -1)
 case "$PLACE" in
   *.go) mkdir -p $(dirname $PLACE); cp $D/$DEMO $PLACE;;
   *) mkdir -p $PLACE; cp $D/$DEMO $PLACE/;;
 esac
-RUN=$(echo "$RUN" | sed "s#/tmp/wt/C[0-9]*#$W#g")
+RUN=$(echo "$RUN" | sed "s#/tmp/wt2\?/C[0-9]*#$W#g")
 echo "-- demo on unchanged tree"
 ( eval "$RUN" ) > /tmp/confirm1.log 2>&1; r1=$?
 tail -3 /tmp/confirm1.log
